@@ -16,12 +16,13 @@ import (
 // independent frame implementation accepts the consumed bytes and yields the same output.
 
 type frameSrc struct {
-	Oversize int            `json:"oversize,omitempty"` // enc only: append a block that decodes to the block maximum + this many bytes
-	Kind     string         `json:"kind"`               // writer | enc
-	Opts     wopts          `json:"opts,omitempty"`
-	Data     gen.Data       `json:"data,omitempty"`
-	Del      delivery       `json:"delivery,omitempty"`
-	Spec     *gen.FrameSpec `json:"spec,omitempty"`
+	Oversize    int            `json:"oversize,omitempty"`    // enc only: append a block that decodes to the block maximum + this many bytes
+	OversizeRaw int            `json:"oversizeraw,omitempty"` // enc only: append a *stored* block of block maximum + this many bytes (checksums correct)
+	Kind        string         `json:"kind"`                  // writer | enc
+	Opts        wopts          `json:"opts,omitempty"`
+	Data        gen.Data       `json:"data,omitempty"`
+	Del         delivery       `json:"delivery,omitempty"`
+	Spec        *gen.FrameSpec `json:"spec,omitempty"`
 }
 
 func (s frameSrc) build() ([]byte, []byte, *stat.Failure) {
@@ -31,6 +32,9 @@ func (s frameSrc) build() ([]byte, []byte, *stat.Failure) {
 			// hostile: a compressed block whose sequences produce more than the declared block maximum
 			spec.Blocks = append(append([]gen.BlockSpec(nil), spec.Blocks...), gen.BlockSpec{Seqs: []gen.SeqSpec{
 				{LitN: 8, LitSeed: 5, LitKind: "text", Off: 3, MLen: ref.BlockMaxOfCode(spec.BSCode) + s.Oversize - 8 - 5}, {LitN: 5, LitSeed: 6, LitKind: "text"}}})
+		}
+		if s.OversizeRaw > 0 {
+			spec.Blocks = append(append([]gen.BlockSpec(nil), spec.Blocks...), gen.BlockSpec{Raw: true, RawN: ref.BlockMaxOfCode(spec.BSCode) + s.OversizeRaw, RawSeed: 77})
 		}
 		z, content := spec.Build()
 		return z, content, nil
@@ -124,6 +128,8 @@ func drawFrameSrc(t *rapid.T, label string) frameSrc {
 		s.Spec = &spec
 		if rapid.IntRange(0, 7).Draw(t, label+".oversize?") == 0 {
 			s.Oversize = rapid.SampledFrom([]int{1, 2, 17, 4096, 65536}).Draw(t, label+".oversize")
+		} else if rapid.IntRange(0, 7).Draw(t, label+".oversizeraw?") == 0 {
+			s.OversizeRaw = rapid.SampledFrom([]int{1, 16, 100, 257, 273, 274, 4096}).Draw(t, label+".oversizeraw")
 		}
 		return s
 	}
@@ -299,7 +305,10 @@ func runC05(c c05Case, rec *stat.Rec) *stat.Failure {
 		other, _, _ = c.Other.build()
 	}
 	mz := applyMutations(z, other, c.Muts)
-	unchanged := bytes.Equal(mz, z) && c.Base.Oversize == 0
+	unchanged := bytes.Equal(mz, z) && c.Base.Oversize == 0 && c.Base.OversizeRaw == 0
+	if c.Base.OversizeRaw > 0 {
+		rec.Class("hostile/stored-block-larger-than-the-block-maximum")
+	}
 	if c.Base.Oversize > 0 {
 		rec.Class("hostile/block-decodes-beyond-the-block-maximum")
 	}
@@ -391,6 +400,8 @@ func TestC05Pinned(t *testing.T) {
 			for _, rc := range []rcfg{{Conc: 1, Sizes: []int{64 << 20}}, {Conc: 1, Sizes: []int{131072}}, {Conc: 1, Sizes: []int{65536}}, {Conc: 1, Sizes: []int{7}}, {Conc: 1, WriteTo: true}, {Conc: 4, Sizes: []int{64 << 20}}, {Conc: 2, WriteTo: true}} {
 				sp := spec
 				pinned(t, "C05", "C05/mutate", c05Case{Base: frameSrc{Kind: "enc", Spec: &sp, Oversize: over}, R: rc}, runC05)
+				sp2 := spec
+				pinned(t, "C05", "C05/mutate", c05Case{Base: frameSrc{Kind: "enc", Spec: &sp2, OversizeRaw: over%300 + 1}, R: rc}, runC05)
 			}
 		}
 	}
@@ -399,6 +410,6 @@ func TestC05Pinned(t *testing.T) {
 func TestC05(t *testing.T) {
 	rec := stat.For("C05")
 	rec.SetRule(c05Rule)
-	rec.Require("hostile/block-decodes-beyond-the-block-maximum", "verdict/rejected-by-both", "verdict/accepted-by-both", "mutated/csum", "mutated/bsum", "mutated/hc", "mutated/bsize", "mutated/bdata", "mutated/endmark", "mutated/block", "mutated/flg", "mutated/bd")
+	rec.Require("hostile/stored-block-larger-than-the-block-maximum", "hostile/block-decodes-beyond-the-block-maximum", "verdict/rejected-by-both", "verdict/accepted-by-both", "mutated/csum", "mutated/bsum", "mutated/hc", "mutated/bsize", "mutated/bdata", "mutated/endmark", "mutated/block", "mutated/flg", "mutated/bd")
 	checkProp(t, "C05", "C05/mutate", pick(40000, 600000), drawC05, runC05)
 }
